@@ -81,7 +81,7 @@ Lemma Q_quiet R H L : quiet (Q R H L).
 Proof. repeat split. Qed.
 
 Definition mk_root (t : wtree) : root :=
-  mkRoot t [] [] [] false false false false false 0 0 0 None.
+  mkRoot t [] [] [] false false false false false 0 0 0 None rsfuel.
 Definition mk_state (t : wtree) (armed : list (Z * (Z * Z * Z))) : istate :=
   mkI (mk_root t) [] [] [] armed [] false.
 
@@ -2619,8 +2619,8 @@ Qed.
 
 Lemma root_damage_forest st d : r_tree (root_damage st d) = r_tree st /\ r_orphans (root_damage st d) = r_orphans st.
 Proof.
-  unfold root_damage. destruct (rs_contains rsfuel (r_damage st) d) as [[|]|]; try (split; reflexivity).
-  destruct (rs_add rsfuel (r_damage st) d); split; reflexivity.
+  unfold root_damage. destruct (rs_contains (r_fuel st) (r_damage st) d) as [[|]|]; try (split; reflexivity).
+  destruct (rs_add (r_fuel st) (r_damage st) d); split; reflexivity.
 Qed.
 
 Lemma win_expose_forest st id ex :
